@@ -2,10 +2,13 @@ PROP = dict(level="model_checking", parts=[
     cxx("cpt", "C17_cpt", ninja=TOOLS, shards=(16, 16),
         env={"ASAN_OPTIONS": "detect_leaks=0:abort_on_error=0:exitcode=97:symbolize=0"}),
     # overlapping handles (several CheckpointFile objects + derived objects outliving them) on ONE file in one process
+    # process-wide libhdf5 state left behind by a (compact) table creation vs later large writes; one process per history
+    cxx("prc", "C17_cpt", ninja=TOOLS, shards=(8, 16), args=["--family", "proc"],
+        env={"ASAN_OPTIONS": "detect_leaks=0:abort_on_error=0:exitcode=97:symbolize=0"}),
     cxx("ovl", "C17_cpt", ninja=TOOLS, shards=(4, 16), args=["--family", "overlap"],
         env={"ASAN_OPTIONS": "detect_leaks=0:abort_on_error=0:exitcode=97:symbolize=0"}),
 ])
 TEXT = dict(engine="bsx", design_ref="DESIGN.md §3 C17",
    technique="explicit-state BFS over operation histories (write / reopen with each access level / read; and several overlapping handles plus derived objects on one file in one process) on real HDF5 checkpoint files vs a std::map reference model, ASan on harness + xtp sources",
-   level_text="Every history up to the stated depth over the stated typed value alphabet, group paths and names is replayed on its own HDF5 file through CheckpointFile/Writer/Reader/CptTable; afterwards a fresh read-only handle reads every slot and is compared bit for bit with the reference map (never-written names must raise, read-only handles must reject writes and leave the file bytes unchanged). A sizes phase writes, overwrites and re-reads every container kind with 0..101 (thorough 1001) distinct elements, tables also row by row. A second family explores 2-3 simultaneously open CheckpointFile slots (and readers/writers/tables outliving them) on one file: a READ-level handle must refuse getWriter whatever else is open, every handle reads the last write. States/transitions are counted; every transition is a trace validated on the implementation.",
+   level_text="Every history up to the stated depth over the stated typed value alphabet, group paths and names is replayed on its own HDF5 file through CheckpointFile/Writer/Reader/CptTable; afterwards a fresh read-only handle reads every slot and is compared bit for bit with the reference map (never-written names must raise, read-only handles must reject writes and leave the file bytes unchanged). A sizes phase writes, overwrites and re-reads every container kind with 0..101 (thorough 1001) distinct elements, tables also row by row. A process-state family creates a table with compact=true|false (openTable or the public CptTable constructor) and then writes values above 64 KiB anywhere in the same process. A further family explores 2-3 simultaneously open CheckpointFile slots (and readers/writers/tables outliving them) on one file: a READ-level handle must refuse getWriter whatever else is open, every handle reads the last write. States/transitions are counted; every transition is a trace validated on the implementation.",
    level_note="Trusted: the reference map and canonical byte strings; system HDF5 1.10 (not instrumented; ASan sees its memcpy traffic); values/paths off the alphabet and reads with a type other than the one written are not covered.")
